@@ -33,3 +33,24 @@ Definition guard_refuses (l : list tag) (i : nat) : bool :=
 
 (* list insertion at a merged position, and the keyword list that results *)
 Definition insert_at {X} (l : list X) (p : nat) (new : list X) : list X := firstn p l ++ new ++ skipn p l.
+
+(* ---- edits of the `args` / `bases` field itself (_put_slice_Call_args, _put_slice_ClassDef_bases) ----
+   They work on the source between positional arguments, so everything they touch must lie in front of the first keyword.
+   Guard: refuse when there are keywords and (stop > 0 and args[stop-1] lies behind the first keyword), or (something is
+   put by a pure insertion at start = stop < len(args) and args[stop] lies behind the first keyword). *)
+Fixpoint lead_a (l : list tag) : nat := match l with A :: r => S (lead_a r) | _ => 0 end.   (* positional arguments in front of the first keyword *)
+
+Fixpoint arg_pos (l : list tag) (i : nat) : option nat :=       (* merged index of the i-th positional argument *)
+  match l with
+  | [] => None
+  | K :: r => option_map S (arg_pos r i)
+  | A :: r => match i with 0 => Some 0 | S j => option_map S (arg_pos r j) end
+  end.
+
+Definition behind_first_kw (l : list tag) (i : nat) : bool :=
+  match arg_pos l i with Some p => Nat.ltb (lead_a l) p | None => false end.
+
+Definition args_guard_refuses (l : list tag) (start stop : nat) (has_code : bool) : bool :=
+  Nat.ltb 0 (count_k l) &&
+  ((Nat.ltb 0 stop && behind_first_kw l (stop - 1)) ||
+   (has_code && Nat.eqb start stop && Nat.ltb stop (count_a l) && behind_first_kw l stop)).
